@@ -56,6 +56,8 @@ fn main() {
     std::panic::set_hook(Box::new(|_| {}));
 
     let corpus = refpeg::corpus::build(prop, tier);
+    // 0 = choose: at most ~700 generated modules per crate (rustc memory), at least 16 crates
+    let nshards = if nshards == 0 { ((corpus.len() + 699) / 700).max(16) } else { nshards };
     let gens: Vec<Gen> = corpus.par_iter().map(generate).collect();
 
     let mut rejected = Vec::new();
@@ -97,7 +99,7 @@ fn main() {
         if cases.is_empty() {
             continue;
         }
-        let name = format!("s{:02}", si);
+        let name = format!("s{:03}", si);
         members.push(name.clone());
         let sdir = outdir.join(&name);
         let src = sdir.join("src");
